@@ -135,31 +135,30 @@ theorem scan_skip (m : Matcher) (once : Bool) (d : Bool) (xs rest : Str) :
   | nil => cases rest <;> simp [scan]
   | cons x xs ih => simpa [scan] using ih
 
-/-- **prefix stripping on tags**: `<p:` and `</p:` lose exactly the prefix and the colon, for every alphabetic prefix,
-in any context. -/
-theorem prefix_strip_open (p rest : Str) (d : Bool) (hne : p ≠ []) (hall : ∀ c ∈ p, isAlpha c = true) :
-    scan prefixMatch false 0 d (60 :: (p ++ 58 :: rest)) = 60 :: scan prefixMatch false 0 true rest := by
-  have hspan := span_append isAlpha p 58 rest hall (by decide)
-  cases p with
-  | nil => exact absurd rfl hne
-  | cons c cs =>
-    have hc : c ≠ 47 := by
-      intro h; have := hall c (by simp); rw [h] at this; exact absurd this (by decide)
-    have hm : prefixMatch (60 :: ((c :: cs) ++ 58 :: rest)) = some ((c :: cs).length + 1, [60]) := by
-      simp only [prefixMatch, List.cons_append]
-      split
-      · rename_i heq; simp at heq; exact absurd heq.1 hc
-      · rename_i heq
-        simp at heq
-        subst heq
-        simp only [List.cons_append] at hspan
-        rw [hspan]; rfl
-      · rename_i h1 h2; exact absurd rfl (h2 _)
-    simp only [scan, Bool.false_and, hm]
-    have := scan_skip prefixMatch false true ((c :: cs) ++ [58]) rest
-    simp only [List.append_assoc, List.cons_append, List.nil_append, List.length_append, List.length_cons,
-      List.length_nil] at this
-    simpa using this
+/-- **prefix stripping on tags**: `<p:` loses exactly the prefix and the colon, for every prefix that is an ASCII name
+(a letter or `_`, then letters, digits, `_`, `.`, `-`: `m`, `mml`, `ns0`, `m_1`), in any context. -/
+theorem prefix_strip_open (c : Nat) (cs rest : Str) (d : Bool) (hc0 : isNameStart c = true) (hall : ∀ x ∈ cs, isNameChar x = true) :
+    scan prefixMatch false 0 d (60 :: ((c :: cs) ++ 58 :: rest)) = 60 :: scan prefixMatch false 0 true rest := by
+  have hspan := span_append isNameChar cs 58 rest hall (by decide)
+  have hc : c ≠ 47 := by
+    intro h; rw [h] at hc0; exact absurd hc0 (by decide)
+  have hn : nameSpan ((c :: cs) ++ 58 :: rest) = some (c :: cs, 58 :: rest) := by
+    simp only [nameSpan, List.cons_append, hc0, if_true, hspan]
+  have hm : prefixMatch (60 :: ((c :: cs) ++ 58 :: rest)) = some ((c :: cs).length + 1, [60]) := by
+    simp only [prefixMatch, List.cons_append]
+    split
+    · rename_i heq; simp at heq; exact absurd heq.1 hc
+    · rename_i heq
+      simp at heq
+      subst heq
+      simp only [List.cons_append] at hn
+      rw [hn]; rfl
+    · rename_i h1 h2; exact absurd rfl (h2 _)
+  simp only [scan, Bool.false_and, hm]
+  have := scan_skip prefixMatch false true ((c :: cs) ++ [58]) rest
+  simp only [List.append_assoc, List.cons_append, List.nil_append, List.length_append, List.length_cons,
+    List.length_nil] at this
+  simpa using this
 
 /-- MathJax bookkeeping attribute `class="LIT…"`: matched whole (up to the closing quote) and deleted -/
 theorem lazyToQuote_spec (body : Str) (q : Nat) (rest : Str) (hq : isQuote q = true)
